@@ -112,21 +112,21 @@ end
 
 mutual
 /-- what the parse-back theorem assumes of a document: the caller-supplied scalars are scalars of the
-text format; an object starts with a plain field (a header field first is not in the text-tape
+text format (ordinary scalars, `@variables`, `@[…]`: `SCall.ValidX`); an object starts with a plain field (a header field first is not in the text-tape
 slice's layout model); the first element of an `arrC` and the body of a header are non-empty
 containers (an empty one would be dropped by the parser as a ghost object); a header is an unquoted
 scalar -/
 def GVal.Good : GVal → Prop
-  | .scal s => s.Valid
+  | .scal s => s.ValidX
   | .empty _ => True
-  | .obj _ (.cons k _ v r) => k.Valid ∧ v.Good ∧ r.Good
+  | .obj _ (.cons k _ v r) => k.ValidX ∧ v.Good ∧ r.Good
   | .obj _ _ => False
-  | .arrS _ first rest => first.Valid ∧ rest.Good
+  | .arrS _ first rest => first.ValidX ∧ rest.Good
   | .arrC _ first rest => first.isContainer = true ∧ first.Good ∧ rest.Good
 def GFields.Good : GFields → Prop
   | .nil => True
-  | .cons k _ v r => k.Valid ∧ v.Good ∧ r.Good
-  | .hdr k _ h body r => k.Valid ∧ (⟨false, h⟩ : Scal).Valid ∧ body.isContainer = true ∧ body.Good ∧ r.Good
+  | .cons k _ v r => k.ValidX ∧ v.Good ∧ r.Good
+  | .hdr k _ h body r => k.ValidX ∧ (⟨false, h⟩ : Scal).Valid ∧ body.isContainer = true ∧ body.Good ∧ r.Good
 def GVals.Good : GVals → Prop
   | .nil => True
   | .cons v r => v.Good ∧ r.Good
@@ -165,6 +165,36 @@ def GFields.Canon : GFields → Prop
 def GVals.Canon : GVals → Prop
   | .nil => True
   | .cons v r => v.Canon ∧ r.Canon
+end
+
+/-! #### which documents of the text-tape slice's `JFields` the C14 round trip covers -/
+
+mutual
+/-- Everything in `JFields` except: mixed containers (an object that continues as a bare list is
+documented as not preserved; the known finding `roundtrip-mixed-nested-operator` lives there too),
+parameter blocks (known finding `roundtrip-param-scalar`; the object form is left to the oracle), and
+the two ghost shapes the format cannot express on re-reading — an array whose first element, or a
+header whose body, has EMPTY content (reachable through `{ {} }`: `a={ { {} } x }`,
+`a=rgb { {} }`): written as `{ }` in first position they are dropped as ghost objects. -/
+def JPlainV : TextTape.JVal → Prop
+  | .scal _ _ => True
+  | .empty _ _ => True
+  | .obj _ _ _ _ _ v rest _ => JPlainV v ∧ JPlainF rest
+  | .arrS _ _ _ rest _ => JPlainVs rest
+  | .arrC _ first rest _ => TextTape.kcontentV first ≠ .empty ∧ JPlainV first ∧ JPlainVs rest
+  | .ghostIn _ _ _ v => JPlainV v
+  | .mixed .. => False
+def JPlainF : TextTape.JFields → Prop
+  | .nil => True
+  | .cons _ _ _ _ v rest => JPlainV v ∧ JPlainF rest
+  | .consImp _ _ v rest => JPlainV v ∧ JPlainF rest
+  | .ghost _ _ rest => JPlainF rest
+  | .consHdr _ _ _ _ _ _ body rest => TextTape.kcontentV body ≠ .empty ∧ JPlainV body ∧ JPlainF rest
+  | .paramVal .. => False
+  | .paramObj .. => False
+def JPlainVs : TextTape.JVals → Prop
+  | .nil => True
+  | .cons v rest => JPlainV v ∧ JPlainVs rest
 end
 
 /-! #### mixed mode: an array that turns into key-value pairs -/
